@@ -1,7 +1,7 @@
 # bin/check configuration of property C06 (a single dict expression)
 {'harness': 'c06',
  'props': 'Props/C06.v',
- 'models': ['Model/Csv.v', 'Model/Fixed.v', 'Model/Delim.v'],
+ 'models': ['Model/Csv.v', 'Model/Fixed.v', 'Model/Delim.v', 'Model/DelimPack.v'],
  'trusted': ['encoding/csv.Reader (as configured by both csv readers), bufio.Reader.ReadLine / '
              'ios.ByteReadLine, utf8.DecodeRune, strings.TrimSpace, strings.Join and regexp matching are '
              'modelled from their sources, not verified; the correspondence runs compare the model with the '
